@@ -90,7 +90,7 @@ def check(ctx):
     work = os.path.join(vlib.WORK, "c15_%d" % os.getpid())
     reqs = []; meta = []
     try:
-        for ci in range(6 if ctx.quick() else 120):
+        for ci in range(12 if ctx.quick() else 120):
             g, ds = writeprops.make_graph(rng, True)
             files = [(n, docs.render(d, rng)) for n, d, _ in ds]
             paths = graphprops.write_files(work, files)
